@@ -65,14 +65,17 @@ static void mw_op(const Args &a) {
     else if (name == "replace") { ascon_masked_word_t *w = wobj(id); D(n, replace, w, wobj((int)a.num("src")), size); }
     else if (name == "from") {      // convert a word with m shares into one with n shares
         int m = (int)a.num("m"); need(m); ascon_masked_word_t *src = wobj((int)a.num("src")); ascon_masked_word_t *dst = wnew(id);
-        if (n == 2 && m == 3) ascon_masked_word_x2_from_x3(dst, src, trng());
+        if (false) { }
+#if MAXS >= 3
+        else if (n == 2 && m == 3) ascon_masked_word_x2_from_x3(dst, src, trng());
+        else if (n == 3 && m == 2) ascon_masked_word_x3_from_x2(dst, src, trng());
+#endif
 #if MAXS >= 4
         else if (n == 2 && m == 4) ascon_masked_word_x2_from_x4(dst, src, trng());
         else if (n == 3 && m == 4) ascon_masked_word_x3_from_x4(dst, src, trng());
         else if (n == 4 && m == 2) ascon_masked_word_x4_from_x2(dst, src, trng());
         else if (n == 4 && m == 3) ascon_masked_word_x4_from_x3(dst, src, trng());
 #endif
-        else if (n == 3 && m == 2) ascon_masked_word_x3_from_x2(dst, src, trng());
         else fatal("bad conversion %d from %d", n, m);
     }
     else if (name == "pad") { ascon_masked_word_pad(wobj(id), size); }
